@@ -59,6 +59,8 @@ def forms(n):
         f.append("n1")
     if n >= 2:
         f.append("n%d" % n)
+    # u…: the same statement executed from a destructor while an exception propagates
+    f += ["ue", "un0"] + (["un1"] if n >= 1 else [])
     return f
 
 
@@ -118,7 +120,7 @@ def gen_log(ptag, tier, rng):
             else:
                 pat = [rng.choice("ssLLicdp") for _ in range(rng.below(6))]
                 n = len(pat)
-                form = rng.choice(["e"] + ["n%d" % k for k in range(n + 1)])
+                form = rng.choice(["e", "ue"] + ["n%d" % k for k in range(n + 1)] + ["un%d" % k for k in range(n + 1)])
                 ops.append(st(rng.below(6), rng.choice([None, "t", "tag two", ""]), form, mk_items(pat, rng.below(1000))))
         out.append(lcase(ptag, m, fid, rng.choice([1, 3]), ops))
     return out
